@@ -4,6 +4,7 @@ import (
 	"git.torproject.org/pluggable-transports/snowflake.git/v2/common/task"
 	"io"
 	"log"
+	"sync"
 	"time"
 
 	"git.torproject.org/pluggable-transports/snowflake.git/v2/common/event"
@@ -18,6 +19,9 @@ func NewProxyEventLogger(logPeriod time.Duration, output io.Writer) event.Snowfl
 }
 
 type logEventLogger struct {
+	// lock protects the three counters: events arrive on the dispatcher's
+	// goroutines, logTick runs on the periodic task's goroutine.
+	lock            sync.Mutex
 	inboundSum      int
 	outboundSum     int
 	connectionCount int
@@ -30,13 +34,17 @@ func (p *logEventLogger) OnNewSnowflakeEvent(e event.SnowflakeEvent) {
 	switch e.(type) {
 	case event.EventOnProxyConnectionOver:
 		e := e.(event.EventOnProxyConnectionOver)
+		p.lock.Lock()
 		p.inboundSum += e.InboundTraffic
 		p.outboundSum += e.OutboundTraffic
 		p.connectionCount += 1
+		p.lock.Unlock()
 	}
 }
 
 func (p *logEventLogger) logTick() error {
+	p.lock.Lock()
+	defer p.lock.Unlock()
 	inbound, inboundUnit := formatTraffic(p.inboundSum)
 	outbound, outboundUnit := formatTraffic(p.outboundSum)
 	p.logger.Printf("In the last %v, there were %v connections. Traffic Relayed ↑ %v %v, ↓ %v %v.\n",
